@@ -46,12 +46,19 @@ theorem steps_sendSeg (left : List M) : ∀ (st : V2 M O) (srv todo : List (Sub 
     intro st srv todo s seg rest hpc
     cases hc : s.conv m with
     | none =>
+      cases hd : st.dead.contains s.actor with
+      | true =>
+        have hd' : s.actor ∈ st.dead := by simpa using hd
+        refine ⟨1, ?_⟩
+        simp [V2.steps, V2.task, hpc, hc, hd', sendSeg]
+      | false =>
+      have hd' : s.actor ∉ st.dead := by simpa using hd
       have h1 : st.task = ({ st with pc := .disp srv ({ s with offered := s.offered ++ [m] } :: todo) seg ms rest },
-          some ⟨s.key, m, true⟩) := by simp [V2.task, hpc, hc]
+          some ⟨s.key, m, true⟩) := by simp [V2.task, hpc, hc, hd']
       have h2 := ih { st with pc := .disp srv ({ s with offered := s.offered ++ [m] } :: todo) seg ms rest }
         srv todo { s with offered := s.offered ++ [m] } seg rest rfl
       have := steps_trans (steps_one (st := st)) (by rw [h1]; exact h2)
-      simpa [h1, sendSeg, hc] using this
+      simpa [h1, sendSeg, hc, hd'] using this
     | some o =>
       cases hd : st.dead.contains s.actor with
       | true =>
